@@ -752,9 +752,28 @@ def check_study(case):
   if c['algorithm'] == '':
     feats.add('algorithm_empty')
   x = gen.build_study_config(c)
-  proto, _ = _Judge(out, 'study_config').run(
+  proto, back = _Judge(out, 'study_config').run(
       x, lambda s: s.to_proto(), svz.StudyConfig.from_proto,
       cn.canon_study_config, _ser)
+  if back is not None and not out.violations:
+    # a config that came off the wire is edited and sent again (the client
+    # library re-targets the Pythia endpoint, changes the algorithm, ...): the
+    # message carries the edited fields
+    feats.add('edited_after_from_proto')
+    try:
+      back.pythia_endpoint = 'changed.example:1'
+      back.algorithm = 'RANDOM_SEARCH'
+      again = svz.StudyConfig.from_proto(_ser(back.to_proto()))
+      if again.pythia_endpoint != 'changed.example:1':
+        out.violate('edit/study_config/pythia_endpoint',
+                    'set to changed.example:1 after from_proto (was %r); the '
+                    'next conversion carries %r' % (c['endpoint'],
+                                                    again.pythia_endpoint))
+      if again.algorithm != 'RANDOM_SEARCH':
+        out.violate('edit/study_config/algorithm', repr(again.algorithm))
+    except Exception as e:  # pylint: disable=broad-except
+      out.violate('raise/study_config/edit_after_from_proto/%s' % _site(e),
+                  repr(e))
   if proto is not None:
     if proto.algorithm != c['algorithm']:
       out.violate('doc/study_config/algorithm', proto.algorithm)
